@@ -16,14 +16,15 @@
   component registration, `NewEntity`, `RemoveEntity`, `Add` / `Remove` / `Exchange` /
   `Relations.Exchange`, their batch forms (`Batch.Add/Remove/Exchange`, `Relations.ExchangeBatch`),
   query lock / unlock, `Cache.Register` / `Unregister`, `Reset`.
-  Not yet in the closure (covered by the correspondence only): creation with values / targets,
-  `Set` / `Assign` value writes, `Relations.Set` and its batch form, `Batch.RemoveEntities`,
-  `LoadEntities`, resources and listeners (the last two do not touch the fields `GInv` reads).
+  Also: `NewEntityWith`, `Builder.New` with a target, batch creation, `Assign`, value writes
+  (`Set`, pointer writes), resources and listeners.
+  Not yet in the closure (covered by the correspondence only): `Relations.Set` and its batch
+  form, `Batch.RemoveEntities`, `LoadEntities`.
 -/
-import ArcheProofs.Lemmas.GOps
+import ArcheProofs.Lemmas.GOps2
 
 namespace Arche.Props.C01.Reach
-open Arche Arche.World Arche.Arr Arche.Storage Arche.IndexInv Arche.SameRows Arche.Graph Arche.Closed Arche.TInv Arche.KInv Arche.Move Arche.Remove Arche.Cov Arche.Cache Arche.SInv Arche.DInv Arche.Create Arche.Frames Arche.BatchOps Arche.GInv Arche.GOps Arche.BatchLoop
+open Arche Arche.World Arche.Arr Arche.Storage Arche.IndexInv Arche.SameRows Arche.Graph Arche.Closed Arche.TInv Arche.KInv Arche.Move Arche.Remove Arche.Cov Arche.Cache Arche.SInv Arche.DInv Arche.Create Arche.Frames Arche.BatchOps Arche.GInv Arche.GOps Arche.GVals Arche.GOps2 Arche.BatchLoop
 open Arche.Props.C08 (plain)
 
 /-! ## the initial world -/
@@ -150,6 +151,28 @@ inductive Reach : World → List Entity → List Entity → Prop
   | cacheUnregister {w is lv} (h : Reach w is lv) (id : Nat) (e : CacheEntry) (hfind : w.cacheFind id = some e) :
       Reach (w.cacheUnregister id).w is lv
   | reset {w is lv} (h : Reach w is lv) (hl : w.isLocked = false) : Reach (w.reset).w [] []
+  /-- `World.NewEntityWith(comps...)` -/
+  | newEntityWith {w is lv} (h : Reach w is lv) (comps : List (CompId × Val)) (hreg : ∀ id ∈ comps.map (·.1), id < w.reg.count)
+      (e : Entity) (hok : (w.newEntityWith comps).out = .ok e) : Reach (w.newEntityWith comps).w (e :: is) (e :: lv)
+  /-- `Builder.New(target)` with or without values -/
+  | newEntityTarget {w is lv} (h : Reach w is lv) (targetID : CompId) (target : Entity) (comps : List (CompId × Val)) (withVals : Bool)
+      (hreg : ∀ id ∈ comps.map (·.1), id < w.reg.count) (e : Entity)
+      (hok : (w.newEntityTarget targetID target comps withVals).out = .ok e) :
+      Reach (w.newEntityTarget targetID target comps withVals).w (e :: is) (e :: lv)
+  /-- `Builder.NewBatch` (and `NewBatchQ`, followed by `lock`) -/
+  | newEntities {w is lv} (h : Reach w is lv) (count : Int) (rel : Option CompId) (target : Entity) (comps : List (CompId × Val))
+      (withVals : Bool) (hreg : ∀ id ∈ comps.map (·.1), id < w.reg.count) (c : Created)
+      (hok : (w.newEntitiesNoNotify count rel target comps withVals).out = .ok c) :
+      Reach (w.newEntitiesNoNotify count rel target comps withVals).w (c.ents.reverse ++ is) (c.ents.reverse ++ lv)
+  /-- `World.Assign` / `Builder.Add` with values -/
+  | assign {w is lv} (h : Reach w is lv) (e : Entity) (hi : e ∈ is) (rel : Option CompId) (target : Entity) (comps : List (CompId × Val))
+      (hreg : ∀ id ∈ comps.map (·.1), id < w.reg.count) (hok : (w.assign e rel target comps).out = .ok ()) :
+      Reach (w.assign e rel target comps).w is lv
+  /-- `World.Set`, a write through the `Get` pointer or through `Query.Get` -/
+  | write {w is lv} (h : Reach w is lv) (t r : Nat) (id : CompId) (v : Val) : Reach (w.setCell t r id v) is lv
+  /-- resources and listeners: fields the invariants do not read -/
+  | other {w is lv} (h : Reach w is lv) (res : Array (Option Nat)) (rc : Nat) (l : Option Listener) :
+      Reach ({ w with resources := res, resCount := rc, listener := l } : World) is lv
 
 /-- **every reachable world satisfies every invariant** -/
 theorem reach_ginv {w : World} {is lv : List Entity} (h : Reach w is lv) : GInv w is lv := by
@@ -178,6 +201,12 @@ theorem reach_ginv {w : World} {is lv : List Entity} (h : Reach w is lv) : GInv 
   | cacheRegister h f hf ih => exact ginv_cacheRegister _ _ _ ih f hf
   | cacheUnregister h id e hfind ih => exact ginv_cacheUnregister _ _ _ ih id e hfind
   | reset h hl ih => exact (ginv_reset _ _ _ ih hl).2
+  | newEntityWith h comps hreg e hok ih => exact ginv_newEntityWith _ _ _ ih comps hreg e hok
+  | newEntityTarget h targetID target comps withVals hreg e hok ih => exact ginv_newEntityTarget _ _ _ ih targetID target comps withVals hreg e hok
+  | newEntities h count rel target comps withVals hreg c hok ih => exact (ginv_newEntities _ _ _ ih count rel target comps withVals hreg c hok).1
+  | assign h e hi rel target comps hreg hok ih => exact ginv_assign _ _ _ ih e hi rel target comps hreg hok
+  | write h t r id v ih => exact ginv_setCell _ _ _ ih t r id v
+  | @other w0 _ _ h res rc l ih => exact ginv_congr (w := w0) rfl rfl rfl rfl rfl rfl rfl rfl rfl ih
 
 /-! ## consequences for every reachable world -/
 
